@@ -2,10 +2,22 @@
 Driver of word `sv` (structural save / load model, stream `sv`).
 
   sv save <net-json>   → <pnet-json>            the tree `Acme.Save.save` builds
-  sv load <pnet-json>  → ok <net-json> | err <class> [<argument>]
-                                                 `Acme.Save.load`; the network is shown in the order
+  sv load <pnet-json>  → ok <net-json> <geo-json> | err <class> [<argument>]
+                                                 `Acme.LoadGeom.loadFull` = `Acme.Save.load`, then the
+                                                 geometry `loadGeom`; the network is shown in the order
                                                  normal form (`norm`) restricted to the definitions
-                                                 that are reachable (the Go side walks the getters)
+                                                 that are reachable (the Go side walks the getters);
+                                                 geo-json = the layouts: [[msg id, bits, [[signal id,
+                                                 start, size] in layout order], [[mux id, group size,
+                                                 [group layouts]] by id]] by id]
+                                                 err geom <cause>[|<cause>…]: refused by the placement
+                                                 (outOfBounds, noSpaceLeft, intersect, typeSizeZero,
+                                                 groupSizeZero); a multiplexer with several faults lists
+                                                 every cause the real loader may meet first (map order)
+                                                 The scalars of the geometry are read from the payloads
+                                                 HERE (the reader `sizesOf`): type `sz`, enum `ms` / `vs`
+                                                 (name:index:desc joined by '/'), message `sz`, multiplexer
+                                                 `gs` — decimal, through uint32 as the schema fields.
   sv example <net-json> / sv example-saved <pnet-json> → same=<bool>
                                                  the JSON is `Acme.Save.Ex.net` / `save Ex.net` (ties the
                                                  fixture of the stream to the example of the theorems);
@@ -38,6 +50,7 @@ import Acme.Core.Save
 import Acme.Spec.Save
 import Acme.Spec.SaveDecEq
 import Acme.Spec.SaveExample
+import Acme.Core.LoadGeom
 
 namespace Acme.Driver.SaveD
 open Lean (Json)
@@ -286,6 +299,90 @@ def dropUnused (n : Net) : Net :=
 
 def view (n : Net) : Net := norm (dropUnused n)
 
+/-! ## the side table of the geometry (payload keys; see the header) -/
+
+open Acme.LoadGeom in
+/-- `svParsePl(pl)[k]` through `svAtoi` and `uint32(..)` -/
+def plNat (pl k : String) : Nat :=
+  let fs := (pl.splitOn ";").filter (fun f => f.startsWith (k ++ "="))
+  match fs.getLast? with
+  | none => 0
+  | some f =>
+    match (f.drop (k.length + 1)).toString.toInt? with
+    | none => 0
+    | some v => (v % 4294967296).toNat
+
+def plStr (pl k : String) : String :=
+  let fs := (pl.splitOn ";").filter (fun f => f.startsWith (k ++ "="))
+  match fs.getLast? with
+  | none => ""
+  | some f => (f.drop (k.length + 1)).toString
+
+/-- the highest index of the enum values `name:index:desc/…` -/
+def plMaxIndex (pl : String) : Nat :=
+  let vs := plStr pl "vs"
+  if vs == "" then 0
+  else
+    (vs.splitOn "/").foldl (fun acc v =>
+      match v.splitOn ":" with
+      | _ :: i :: _ =>
+        let n := match i.toInt? with | none => 0 | some x => (x % 4294967296).toNat
+        if n > acc then n else acc
+      | _ => acc) 0
+
+/-- the reader of the payloads the stream uses -/
+def sizesOf : Acme.LoadGeom.Sizes :=
+  { typeSize := fun e => plNat e.pl "sz"
+    enumMin := fun e => plNat e.pl "ms"
+    enumMax := fun e => plMaxIndex e.pl
+    msgSize := fun e => plNat e.pl "sz"
+    groupSize := fun e => plNat e.pl "gs" }
+
+def showLErr : Acme.Layout.LErr → String
+  | .negative => "negative" | .zero => "zero" | .outOfBounds => "outOfBounds"
+  | .noSpaceLeft => "noSpaceLeft" | .intersect => "intersect" | .tooSmall => "tooSmall" | .panic => "panic"
+
+/-- the first multiplexer with the given id (entity, group count, kids), in loader order -/
+partial def findMux (id : Id) : List Sig → Option (Ent × Nat × List Kid)
+  | [] => none
+  | s :: r =>
+    match s.body with
+    | .mux gc kids =>
+      if s.id == id then some (s.e, gc, kids)
+      else match findMux id (kids.map Kid.sig) with
+        | some x => some x
+        | none => findMux id r
+    | _ => findMux id r
+
+def sortStrs (xs : List String) : List String := sortBy (fun a b => decide (a ≤ b)) xs
+
+def showGeomErr (z : Acme.LoadGeom.Sizes) (n : Net) : Acme.LoadGeom.GeomErr → String
+  | .typeSize _ => "err geom typeSizeZero"
+  | .groupSize _ => "err geom groupSizeZero"
+  | .layout c (.msg _) _ => s!"err geom {showLErr c}"
+  | .layout c (.mux id) _ =>
+    let tops := (Acme.LoadGeom.allMsgs n).flatMap fun m => m.sigs.map (·.1)
+    let alts : List Acme.Layout.LErr :=
+      match findMux id tops with
+      | none => []
+      | some (e, gc, kids) =>
+        match Acme.LoadGeom.kidsGeom z n.t kids with
+        | .error _ => []
+        | .ok (ks, _) => Acme.LoadGeom.muxCauses gc (z.gsOf e) ks
+    let names := (sortStrs ((c :: alts).map showLErr)).eraseDups
+    s!"err geom {"|".intercalate names}"
+
+def eSlots (ids : List Id) (l : List Acme.Layout.Slot) : Json :=
+  jArr (fun s : Acme.Layout.Slot => Json.arr #[Json.str (ids.getD s.id "?"), jInt s.start, jInt s.size]) l
+
+def eGeo (g : Acme.LoadGeom.GNet) : Json :=
+  let ms := sortBy (fun a b : Acme.LoadGeom.GMsg => decide (a.id ≤ b.id)) g.msgs
+  jArr (fun m : Acme.LoadGeom.GMsg =>
+    let xs := sortBy (fun a b : Acme.LoadGeom.GMux => decide (a.id ≤ b.id)) m.muxes
+    Json.arr #[Json.str m.id, jInt m.cap, eSlots m.sigs m.slots,
+      jArr (fun x : Acme.LoadGeom.GMux =>
+        Json.arr #[Json.str x.id, jInt x.gs, jArr (eSlots x.kids) x.groups]) xs]) ms
+
 def showErr : LoadErr → String
   | .notFound _ id => s!"err notFound {id}"
   | .unplaced ids => s!"err notFound {"|".intercalate ids}"
@@ -313,7 +410,11 @@ def handle (args : List String) : String :=
     | .ok p =>
       match load p with
       | .error e => showErr e
-      | .ok n => "ok " ++ (eNet (view n)).compress
+      | .ok n =>
+        let z := sizesOf
+        match Acme.LoadGeom.loadGeom z n with
+        | .error ge => showGeomErr z n ge
+        | .ok g => "ok " ++ (eNet (view n)).compress ++ " " ++ (eGeo g).compress
   | ["wf", js] =>
     match Json.parse js >>= dNet with
     | .error e => s!"bad-json {e}"
